@@ -79,9 +79,20 @@ func c02(c *Ctx) {
 		pd := c.fn(tr, "loopyWriter.processData")
 		wd := one(c, "writeData call", callsIn(pd, Callee(tr, "framer.writeData")))
 		fEnd := c.field(tr, "dataFrame", "endStream")
+		// bytes of the item still unsent after this write = len(prefix) + payload remaining - prefix part written - payload part written
+		fH := c.field(tr, "dataFrame", "h")
+		var hSize, dSize ssa.Value
+		for _, in := range instrsWhere(pd, func(in ssa.Instruction) bool { s, ok := in.(*ssa.Slice); return ok && FieldLoad(fH)(s.X) && s.Low == nil && s.High != nil }) {
+			hSize = in.(*ssa.Slice).High
+		}
+		pk := one(c, "Reader.Peek call", callsIn(pd, Callee("mem", "Reader.Peek")))
+		dSize = pk.Common().Args[1]
+		if hSize == nil {
+			panic(missingStep{"no dataItem.h[:hSize] slice in the data step"})
+		}
+		is := func(x ssa.Value) VM { return func(v ssa.Value) bool { return stripConv(v) == stripConv(x) } }
 		remaining := func(v ssa.Value) bool {
-			b, ok := strip(v).(*ssa.BinOp)
-			return ok && b.Op == token.SUB && DataDep(CallRes(Callee("mem", "Reader.Remaining"), 0))(b)
+			return isLinear(v, []VM{LenOf(FieldLoad(fH)), CallRes(Callee("mem", "Reader.Remaining"), 0)}, []VM{is(hSize), is(dSize)})
 		}
 		c.ArgIs(wd, 2, "end-stream-only-when-requested-and-complete", SetWhen(Truth(FieldLoad(fEnd), true), CmpInt(remaining, token.EQL, 0)))
 		dq := one(c, "itl.dequeue in the data step", callsIn(pd, onItl("dequeue")))
@@ -96,8 +107,8 @@ func c02(c *Ctx) {
 		c.MustPass("complete-item-is-dequeued", q, dq)
 		c.Expect(len(callsIn(pd, Callee("mem", "Reader.Discard"))) == 1, nil, pd, "written-data-discarded", "the data step does not discard the bytes it wrote")
 		// the item written is the head of the stream's queue
-		pk := one(c, "itl.peek in the data step", callsIn(pd, onItl("peek")))
-		c.Dominates(pk, wd, "writes-the-head-item")
+		pk2 := one(c, "itl.peek in the data step", callsIn(pd, onItl("peek")))
+		c.Dominates(pk2, wd, "writes-the-head-item")
 	})
 	c.Ob("client-last", "R11", "client write: a last message is enqueued only after winning CAS(active -> write-done); a non-last message only while the stream is active; the frame's endStream is the caller's Last flag", 4, func() {
 		f := c.fn(tr, "http2Client.write")
